@@ -35,9 +35,23 @@ def jobs(tier, seed):
 
 
 def gen_sample(rng, n):
-    kind = rng.choice(["normal", "cauchy", "ties", "outliers", "bimodal", "const1", "sorted", "lognormal"])
+    kind = rng.choice(["normal", "cauchy", "ties", "outliers", "bimodal", "const1", "sorted", "lognormal", "near_ties", "grid"])
     scale = 10.0 ** rng.uniform(-6, 6)
     shift = rng.choice([0.0, 1.0, -1.0, 1e3, -1e6]) * scale * rng.choice([0, 1])
+    if kind == "near_ties" and n >= 4:
+        # two clusters with the same pattern, the lower one wider by a relative 1e-12 .. 1e-7: candidate windows whose widths are
+        # nearly, but not, equal (with fraction = half the points the narrower, upper cluster is the answer)
+        m = n // 2
+        u = np.sort(rng.uniform(0, 1, size=m))
+        u[0], u[-1] = 0.0, 1.0
+        delta = 10.0 ** rng.uniform(-12, -7)
+        s = np.concatenate([u * (1 + delta) - 10.0, u + 10.0, np.full(n - 2 * m, 50.0)])
+        return kind, rng.permutation(s) * (scale if rng.random() < 0.5 else 1.0)
+    if kind == "grid":
+        # evenly spaced values (time-stamps, bin centres): every window of a given count has the same width up to rounding
+        step = 10.0 ** rng.uniform(-3, 3)
+        s = float(rng.integers(0, 2**30)) * step * rng.choice([0, 1]) + step * np.arange(n)
+        return kind, rng.permutation(s)
     if kind == "normal":
         s = rng.normal(size=n)
     elif kind == "cauchy":
@@ -127,6 +141,9 @@ def run_job(job, rec):
         n = int(rng.choice(sizes)) if rng.random() < 0.7 else int(np.exp(rng.uniform(np.log(2), np.log(3000))))
         kind, s64 = gen_sample(rng, n)
         fmode, f = gen_fraction(rng, n)
+        if kind == "near_ties" and n >= 4:
+            fmode, f = "half", float((n // 2) / n)
+            rec.count("cases:near_tied_windows")
         form = rng.choice(["f64", "f32", "int", "list", "2d"], p=[0.45, 0.1, 0.1, 0.15, 0.2])
         rec.context = {"case": c, "n": n, "kind": kind, "fraction": f, "form": str(form)}
 
